@@ -1190,4 +1190,181 @@ Qed.
 
 End WithAp3.
 
+Section WithAp4.
+Variables ap1 ap2 : value -> list value -> res.
+Hypothesis Hap : apply_ok ap1 ap2.
+
+Lemma IHs_all : forall k, IHs ap1 ap2 k.
+Proof.
+  induction k as [|k IH]; intros j Hj.
+  - assert (j = 0) by lia. subst j. repeat split.
+    + intros a b r1 r2 H. discriminate.
+    + intros es es' r1 r2 H. discriminate.
+    + intros alts alts' r1 r2 v1 v2 H. discriminate.
+    + intros ns args pfs body kept b done r1 r2 r2k H. discriminate.
+  - destruct (Nat.eq_dec j (S k)) as [->|Hne]; [|apply IH; lia].
+    destruct (IH k (le_n k)) as (Hev & Hevl & Heva & Hfl). repeat split.
+    + apply P_ev_step; assumption.
+    + apply P_evl_step; assumption.
+    + apply P_eva_step; assumption.
+    + apply P_fields_step; assumption.
+Qed.
+
+Lemma vo_sound_ap : forall k a b r1 r2,
+  vo k a b = true -> erel (fv b) r1 r2 -> rrel vrel (ev ap1 r1 a) (ev ap2 r2 b).
+Proof. intros k. destruct (IHs_all k k (le_n k)) as (H & _). exact H. Qed.
+
+End WithAp4.
+
+(* ------------------------------------------------------------------------------------------ *)
+(* function application *)
+
+Lemma Forall2_firstn : forall (A B : Type) (R : A -> B -> Prop) n l1 l2,
+  Forall2 R l1 l2 -> Forall2 R (firstn n l1) (firstn n l2).
+Proof. induction n; intros l1 l2 H; cbn [firstn]; [constructor|]. destruct H; constructor; auto. Qed.
+
+Lemma Forall2_skipn : forall (A B : Type) (R : A -> B -> Prop) n l1 l2,
+  Forall2 R l1 l2 -> Forall2 R (skipn n l1) (skipn n l2).
+Proof. induction n; intros l1 l2 H; cbn [skipn]; [exact H|]. destruct H; [constructor|auto]. Qed.
+
+Lemma map_fst_combine : forall (A : Type) (xs : list N) (ys : list A),
+  length xs <= length ys -> map fst (combine xs ys) = xs.
+Proof.
+  induction xs as [|x xs IH]; intros ys H; cbn [combine map]; auto.
+  destruct ys as [|y ys]; cbn [length] in H; [lia|]. cbn [map fst]. f_equal. apply IH. lia.
+Qed.
+
+Lemma find_clo_fv : forall f cs ps b, find_clo f cs = Some (ps, b) ->
+  forall x, In x (remove_all ps (fv b)) -> In x (fv_clos cs).
+Proof.
+  induction cs as [|g ps0 b0 r IH]; cbn [find_clo]; intros ps b H x Hx; [discriminate|].
+  change (fv_clos (CCons g ps0 b0 r)) with (remove_all ps0 (fv b0) ++ fv_clos r).
+  apply in_or_app. destruct (N.eqb f g).
+  - injection H as -> ->. auto.
+  - right. eauto.
+Qed.
+
+Lemma apply_sound : forall n, apply_ok (apply n) (apply n).
+Proof.
+  induction n as [|n IH]; intros vf1 vf2 vs1 vs2 Hf Hvs; [exact I|].
+  cbn [Core.apply].
+  destruct Hvs as [|a1 a2 t1 t2 Ha Ht]; cbn [is_nil]; [apply rrel_ret; exact Hf|].
+  assert (Hvs : Forall2 vrel (a1 :: t1) (a2 :: t2)) by (constructor; auto).
+  destruct Hf as [z|z|z|s|c ws1 ws2 Hw|fs1 fs2 Hfs|r1 r2 cs1 cs2 f k kfv Hnd Hcs Hkfv Hin Henv|g1 g2 b1 b2 Hg Hb|h];
+    try apply rrel_stuck.
+  - (* closures *)
+    destruct (vo_clos_find _ _ _ _ Hcs Hnd f Hin) as (ps & body1 & body2 & k' & F1 & F2 & Hvo).
+    rewrite F1, F2. destruct (is_nil ps); [apply rrel_stuck|].
+    rewrite <- (Forall2_length' _ _ _ _ _ Hvs).
+    destruct (Nat.ltb (length (a1 :: t1)) (length ps)) eqn:LT.
+    + apply rrel_ret. constructor; [|exact Hvs]. econstructor; eauto.
+    + apply Nat.ltb_ge in LT. eapply rrel_bind.
+      * eapply (vo_sound_ap _ _ IH); [exact Hvo|].
+        apply erel_app; [apply Forall2_combine_brel, Forall2_firstn; exact Hvs|].
+        rewrite map_fst_combine by (rewrite firstn_length; lia).
+        intros x v1 Hx Hl.
+        pose proof (find_clo_fv _ _ _ _ F2 x Hx) as Hxc.
+        rewrite lookup_bind_group in Hl. rewrite lookup_bind_group.
+        destruct (memb x (clo_names cs2)) eqn:M2.
+        -- apply memb_In in M2. pose proof (vo_clos_names _ _ _ _ Hcs x M2) as M1.
+           apply memb_In in M1. rewrite M1 in Hl. injection Hl as <-.
+           eexists. split; [reflexivity|]. econstructor; eauto.
+        -- apply memb_false in M2.
+           assert (M1 : ~ In x (clo_names cs1)).
+           { intros Hc. destruct (vo_clos_dropped _ _ _ _ Hcs x Hc) as [Hc'|Hc']; [tauto|]. apply Hc'. auto. }
+           apply memb_false in M1. rewrite M1 in Hl. apply Henv; [|exact Hl].
+           apply In_remove_all. auto.
+      * intros w1 w2 Hw. apply IH; [exact Hw|]. apply Forall2_skipn. exact Hvs.
+  - (* partial applications *)
+    apply IH; [exact Hg|]. apply Forall2_app; assumption.
+  - (* host functions *)
+    eapply rrel_bind; [apply host_call_rel; exact Ha|]. intros w1 w2 Hw. apply IH; assumption.
+Qed.
+
+(* ------------------------------------------------------------------------------------------ *)
+(* the theorems *)
+
+Theorem valid_opt_sound : forall a b, valid_opt a b = true ->
+  forall n r1 r2, erel (fv b) r1 r2 -> rrel vrel (eval n r1 a) (eval n r2 b).
+Proof.
+  intros a b H n r1 r2 He. unfold Core.eval, valid_opt in *.
+  eapply vo_sound_ap; [apply apply_sound|exact H|exact He].
+Qed.
+
+
+(* first-order values (numbers, strings, data and records of such): what a host can observe *)
+Fixpoint fo (v : value) : bool :=
+  match v with
+  | VInt _ | VByte _ | VFloat _ | VStr _ => true
+  | VData _ vs => (fix all (l : list value) : bool := match l with [] => true | x :: r => fo x && all r end) vs
+  | VRec fs =>
+      (fix all (l : list (N * value)) : bool := match l with [] => true | (_, x) :: r => fo x && all r end) fs
+  | _ => false
+  end.
+
+(* on first-order values [vrel] is equality: the optimised run returns the same value *)
+Fixpoint vrel_fo_eq (v1 : value) : forall v2, fo v1 = true -> vrel v1 v2 -> v1 = v2.
+Proof.
+  destruct v1 as [z|z|z|s|c vs|fs|r cs f|g args|h]; intros v2 Hfo Hr;
+    try (inversion Hr; subst; reflexivity); try discriminate.
+  - cbn [fo] in Hfo.
+    assert (G : forall l, Forall2 vrel vs l ->
+                (fix all (l : list value) : bool := match l with [] => true | x :: r => fo x && all r end) vs = true ->
+                vs = l).
+    { clear Hr Hfo v2. induction vs as [|x vs IHvs]; intros l HF Hall; inversion HF; subst; [reflexivity|].
+      apply andb_true_iff in Hall. destruct Hall as [Hx Hrest]. f_equal.
+      - apply vrel_fo_eq; assumption.
+      - apply IHvs; assumption. }
+    inversion Hr; subst. f_equal. apply G; assumption.
+  - cbn [fo] in Hfo.
+    assert (G : forall l, Forall2 (fun p q => fst p = fst q /\ vrel (snd p) (snd q)) fs l ->
+                (fix all (l : list (N * value)) : bool := match l with [] => true | (_, x) :: r => fo x && all r end) fs = true ->
+                fs = l).
+    { clear Hr Hfo v2. induction fs as [|[fn x] fs IHfs]; intros l HF Hall;
+        inversion HF as [|? [fn' y] ? ? [Hk Hv] HF']; subst; [reflexivity|].
+      apply andb_true_iff in Hall. destruct Hall as [Hx Hrest]. cbn [fst snd] in *. subst fn'. f_equal.
+      - f_equal. apply vrel_fo_eq; assumption.
+      - apply IHfs; assumption. }
+    inversion Hr; subst. f_equal. apply G; assumption.
+Qed.
+
+Fixpoint vrel_fo_refl (v : value) : fo v = true -> vrel v v.
+Proof.
+  destruct v as [z|z|z|s|c vs|fs|r cs f|g args|h]; intros Hfo; try discriminate; try constructor.
+  - cbn [fo] in Hfo. induction vs as [|x vs IHvs]; [constructor|].
+    apply andb_true_iff in Hfo. destruct Hfo as [Hx Hrest]. constructor; [apply vrel_fo_refl; exact Hx|auto].
+  - cbn [fo] in Hfo. induction fs as [|[fn x] fs IHfs]; [constructor|].
+    apply andb_true_iff in Hfo. destruct Hfo as [Hx Hrest]. constructor; [split; [reflexivity|apply vrel_fo_refl; exact Hx]|auto].
+Qed.
+
+Lemma vrel_host_record : forall fs, (forall fn v, In (fn, v) fs -> exists h, v = VHost h) -> vrel (VRec fs) (VRec fs).
+Proof.
+  intros fs H. constructor. induction fs as [|[fn v] fs IH]; constructor.
+  - split; [reflexivity|]. destruct (H fn v (or_introl eq_refl)) as [h ->]. constructor.
+  - apply IH. intros fn' v' Hin. eapply H. right. exact Hin.
+Qed.
+
+(* The statement with its relation spelled out, for one environment whose values relate to
+   themselves (first-order values and records of host functions do): a program and its accepted
+   optimisation have the same value, the same error and the same log of host calls; where the
+   unoptimised program stops in an arithmetic failure (or gets stuck, which type-correct programs
+   do not), the optimised one has at least the same calls. *)
+Theorem valid_opt_sound_same_env : forall a b, valid_opt a b = true ->
+  forall n r, (forall x v, lookup x r = Some v -> vrel v v) ->
+  match eval n r a with
+  | (Val v1, l) => exists v2, eval n r b = (Val v2, l) /\ vrel v1 v2 /\ (fo v1 = true -> v2 = v1)
+  | (Err e, l) =>
+      eval n r b = (Err e, l)
+      \/ ((e = EArith \/ e = EStuck) /\ exists o l2, eval n r b = (o, l ++ l2))
+  | (OOF, _) => True
+  end.
+Proof.
+  intros a b H n r Hr.
+  assert (He : erel (fv b) r r) by (intros x v _ Hl; exists v; split; [exact Hl|eapply Hr; eauto]).
+  pose proof (valid_opt_sound a b H n r r He) as Hs. unfold rrel in Hs.
+  destruct (eval n r a) as [[v1|e|] l]; auto.
+  destruct Hs as (v2 & E & Hv). exists v2. repeat split; auto.
+  intros Hfo. symmetry. apply vrel_fo_eq; assumption.
+Qed.
+
 End Sound.
